@@ -47,12 +47,7 @@ func scribble(b []byte) {
 }
 
 func pickStringType(c *simkit.Choices) *model.TypeEntry {
-	for {
-		te := &model.Catalogue[c.N(len(model.Catalogue))]
-		if te.Supported && te.HasStrings {
-			return te
-		}
-	}
+	return model.PickType(c, true, true, false)
 }
 
 func writeDoc(c *simkit.Choices, f model.Format, v model.Val) []byte {
@@ -278,13 +273,7 @@ func encodeGC(c *simkit.Choices, x *simkit.Ctx) *simkit.Violation {
 	st := x.Stats
 	f := model.Formats[c.N(3)]
 	cd := common.ByName(f)
-	var te *model.TypeEntry
-	for {
-		te = &model.Catalogue[c.N(len(model.Catalogue))]
-		if te.Supported {
-			break
-		}
-	}
+	te := model.PickType(c, false, false, false)
 	val := te.Gen(c)
 	sc := &Scenario{Mode: "encode", Format: string(f), Target: te.Name, Value: model.Render(val)}
 	n := len(reuse.RecordFold(val))
